@@ -80,7 +80,8 @@ fn run_case(c0: &WtCase, seed: u64, idx: u64, st: &mut Stats) -> Vec<Violation> 
     // ONE didChange with two ranged changes (a comment line at 0:0, then two blanks at 2:0 of the result —
     // contentChanges apply one after the other) and keeps the documents open; everything below works on the
     // edited texts
-    let prelude = idx % 4 == 2;
+    // (also in some of the sessions that start with drafts: the document is then opened a second time)
+    let prelude = idx % 4 == 2 || idx % 8 == 3;
     let edited;
     let c: &WtCase = if prelude {
         let printed = after_prelude(&c0.printed);
@@ -104,6 +105,14 @@ fn run_case(c0: &WtCase, seed: u64, idx: u64, st: &mut Stats) -> Vec<Violation> 
     };
     let dir = TempDir::new("c18");
     write_workspace(&dir.path, c0);
+    if idx % 8 == 3 {
+        // the files on disk are behind what the client is going to open (unsaved work restored by the editor): the
+        // server reads them first, the documents opened later carry the texts that count
+        for pm in &c0.printed {
+            let _ = std::fs::write(dir.path.join(&pm.file), format!("// an older version, on disk\n\n{}", pm.text));
+        }
+        st.inc("sessions_with_older_files_on_disk");
+    }
     let docs: Vec<ClientDoc> = c.printed.iter().map(|m| ClientDoc::new(&m.text)).collect();
     let uris: Vec<String> = c.printed.iter().map(|m| file_uri(&dir.path.join(&m.file))).collect();
     let mut rng = Rng::for_case(seed, "c18pos", idx);
